@@ -26,6 +26,10 @@ impl FileSystemLayer {
     pub fn read(&self, path: &str) -> Result<Vec<u8>> {
         match self {
             FileSystemLayer::Directory(p) => {
+                #[cfg(mila_verif)]
+                if let Some(e) = crate::verif_seam::io_fault("read", p) {
+                    return Err(LayeredFilesystemError::IOError(e));
+                }
                 std::fs::read(Path::new(p).join(path)).map_err(LayeredFilesystemError::IOError)
             }
         }
@@ -37,6 +41,10 @@ impl FileSystemLayer {
                 let full_path = Path::new(p).join(path);
                 if let Some(parent) = full_path.parent() {
                     std::fs::create_dir_all(parent)?;
+                }
+                #[cfg(mila_verif)]
+                if let Some(e) = crate::verif_seam::io_fault("write", p) {
+                    return Err(LayeredFilesystemError::IOError(e));
                 }
                 std::fs::write(Path::new(p).join(path), contents)?
             }
@@ -57,6 +65,10 @@ impl FileSystemLayer {
     pub fn list(&self, path: &str, glob: Option<&str>) -> Result<Vec<String>> {
         match self {
             FileSystemLayer::Directory(p) => {
+                #[cfg(mila_verif)]
+                if let Some(e) = crate::verif_seam::io_fault("list", p) {
+                    return Err(LayeredFilesystemError::IOError(e));
+                }
                 // TODO: Clean up this mess.
                 let mut layer_str = String::new();
                 layer_str.push_str(p);
